@@ -168,6 +168,44 @@ def check(prog, res, tier):
     res.add(uf.runs.judge('C08.e', 'no guard rejects an element whose declared length is within 0..10^k-1 and whose '
                                    'bytes are present', func_where(ffi), 'raise Iso8583DataError(...) guards', chk_e))
 
+    # the same for the sub-element walks: an explicit `raise` must not be reachable for a sub-element whose declared length
+    # is a plain non-negative number (zero included: empty PDS values and empty tags are well-formed)
+    for key in ('pds', 'icc'):
+        if key not in du.units:
+            continue
+        u = du.units[key]
+
+        def chk_e_sub(p, mode, u=u):
+            if p.outcome != 'raise':
+                return []
+            exc = p.value
+            node = exc.raise_node
+            if not isinstance(node, ast.Raise) or exc.op is not None:
+                return []
+            par, in_handler = node, False
+            while par is not None:
+                par = getattr(par, '_parent', None)
+                if isinstance(par, ast.ExceptHandler):
+                    in_handler = True
+            if in_handler:
+                return []
+            for kind, truth, data in p.facts:
+                if kind in ('isdigit', 'isdecimal', 'isnumeric') and not truth:
+                    return []
+            st = p.store
+            extra = [Lin.sym(s) for s in list(st.iv) if 'wire-int' in _sym_tags(p, s)]
+            trial = st.copy()
+            try:
+                for x in extra:
+                    trial.assume_ge0(x)
+            except Infeasible:
+                return []
+            return [Failure(f'explicit rejection {norm_text(node)[:80]} is reachable for a sub-element with a non-negative '
+                            f'declared length (an empty value is well-formed)', node=node, neg=[extra])]
+        chk_e_sub.check_abandoned = False
+        res.add(u.runs.judge('C08.e', f'{key.upper()} walk: no guard rejects a sub-element whose declared length is >= 0',
+                             func_where(u.fi), 'if pds_field_length < 0: raise ...', chk_e_sub, rule=f'C08.e.{key}'))
+
     # ---- C08.b cursor discipline / C08.d final check (loads with the element parser summarised)
     dfi = prog.func('iso8583._iso8583_to_dict') if prog.has_func('iso8583._iso8583_to_dict') else prog.func('iso8583.loads')
 
